@@ -542,6 +542,220 @@ theorem nBatch_single_ok (s : List NRow) (x : NRow)
     · simp [e]
   simp [nBatch, nUpsert, this]
 
+/-! ### lower last index, caught-up secondaries, federation states -/
+
+/-- A LOWER last index is always safe: whatever holds for `last` holds for every `last' ≤ last`
+    (a server that becomes leader again resumes from its own, older `lastRemoteIndex`; a failed
+    round restarts from 0). -/
+theorem roundOK_mono (R : Rnd κ η) (last last' : Nat) (l r : List (Item κ η)) (h : RoundOK R last l r)
+    (hle : last' ≤ last) : RoundOK R last' l r :=
+  ⟨h.law, h.fl, h.fr, h.cls, h.hash, fun y hy x hx e hm => h.cons y hy x hx e (by omega)⟩
+
+/-- `no_writes_when_equal` for walks without a usable hash (federation states: `same` is constantly
+    false; config entries with a zero hash): a secondary holding exactly the primary's keys issues no
+    Raft apply as soon as every shared object is at or below the last index OR has an agreeing hash. -/
+theorem no_writes_when_caught_up (R : Rnd κ η) (last ridx : Nat) (l r : List (Item κ η))
+    (h : RoundOK R (effLast last ridx) l r)
+    (hlr : ∀ y ∈ l, R.cfg.skip y.id = false → R.noRepl y.id = false →
+             ∃ x ∈ r, x.id = y.id ∧ (x.mod ≤ effLast last ridx ∨ R.cfg.same x.hash y.hash = true))
+    (hrl : ∀ x ∈ r, R.cfg.skip x.id = false → R.noRepl x.id = false → ∃ y ∈ l, y.id = x.id) :
+    roundOps R last ridx l r = [] ∧ roundFinal R last ridx l r = l := by
+  have hD := mem_roundDels R h.law last ridx l r h.fl h.fr
+  have hU := mem_roundUps R last ridx l r
+  have hu := fun k => mem_ups R.cfg h.law (effLast last ridx) _ _ (sortBy_sorted R.cfg h.law l h.fl.unique)
+    (sortBy_sorted R.cfg h.law r h.fr.unique) k
+  simp only [mem_sortBy] at hu
+  have hd0 : roundDels R last ridx l r = [] := by
+    apply List.eq_nil_iff_forall_not_mem.mpr; intro k hk
+    obtain ⟨hs, hnr, ⟨y, hyl, hyk⟩, hno⟩ := (hD k).mp hk
+    obtain ⟨x, hxr, hxy, _⟩ := hlr y hyl (by rw [hyk]; exact hs) (by rw [hyk]; exact hnr)
+    exact hno ⟨x, hxr, by rw [hxy, hyk]⟩
+  have hu0 : roundUps R last ridx l r = [] := by
+    apply List.eq_nil_iff_forall_not_mem.mpr; intro x hxu
+    obtain ⟨hxr, hnr, hmem⟩ := (hU x).mp hxu
+    obtain ⟨hs, x', hx', hx'k, hcase⟩ := (hu x.id).mp hmem
+    have hxx : x' = x := h.fr.inj x' hx' x hxr (by rw [hx'k]) (by rw [hx'k]; exact hs)
+    subst hxx
+    rcases hcase with hno | ⟨y, hy, hyk, hlt, hsame⟩
+    · obtain ⟨y, hy, hyx⟩ := hrl x' hxr hs hnr
+      exact hno ⟨y, hy, hyx⟩
+    · obtain ⟨x'', hx'', hx''y, hs'⟩ := hlr y hy (by rw [hyk]; exact hs) (by rw [hyk]; exact hnr)
+      have : x'' = x' := h.fr.inj x'' hx'' x' hxr (by rw [hx''y, hyk]) (by rw [hx''y, hyk]; exact hs)
+      subst this
+      rcases hs' with hs' | hs'
+      · omega
+      · rw [hs'] at hsame; cases hsame
+  have hops : roundOps R last ridx l r = [] := by
+    unfold roundOps; rw [hd0, hu0]; simp [batches_nil]
+  refine ⟨hops, ?_⟩
+  unfold roundFinal; rw [hops]; rfl
+
+/-- The round invents nothing: every row of the secondary after the round is an untouched local
+    row or, whole (content AND the primary's ModifyIndex, which a federation state keeps as
+    `PrimaryModifyIndex`), an object of the remote list. -/
+theorem round_rows_from_inputs (R : Rnd κ η) (last ridx : Nat) (l r : List (Item κ η)) :
+    ∀ y ∈ roundFinal R last ridx l r, y ∈ l ∨ y ∈ r := by
+  rw [roundFinal_eq]
+  apply foldl_sups_rows R.fold (fun y => y ∈ l ∨ y ∈ r)
+  · intro x hx; exact Or.inr ((mem_roundUps R last ridx l r x).mp hx).1
+  · exact foldl_sdel_rows R.fold _ _ l (fun y hy => Or.inl hy)
+
+theorem fedCfg_lawful : Lawful fedCfg := by
+  refine ⟨?_, ?_, ?_, ?_⟩ <;> simp only [fedCfg, bytesLt, decide_eq_true_eq, decide_eq_false_iff_not]
+  · intro a; exact List.lt_irrefl a
+  · intro a b d h1 h2; exact List.lt_trans h1 h2
+  · intro a b h1 h2; exact List.le_antisymm (List.not_lt.mp h2) (List.not_lt.mp h1)
+  · intro a b ha; simp at ha
+
+/-- federation states: nothing skipped, nothing exempt -/
+theorem fedRnd_cls (a b : Bytes) :
+    fedRnd.cfg.skip a = fedRnd.cfg.skip b ∧ fedRnd.noRepl a = fedRnd.noRepl b := ⟨rfl, rfl⟩
+
+/-- federation states have no content hash: `RoundOK.hash` is vacuous, and a full sync rewrites
+    every shared object (so "no writes" needs `no_writes_when_caught_up`, not equality) -/
+theorem fed_hash_vacuous (l r : List (Item Bytes Unit)) :
+    ∀ y ∈ l, ∀ x ∈ r, y.id = x.id → fedRnd.cfg.same x.hash y.hash = true → y.val = x.val := by
+  intro _ _ _ _ _ h; simp [fedRnd, fedCfg] at h
+
+/-! ### rounds under faults: rejected applies, cancelled context -/
+
+/-- Without faults the fault-aware round IS the round: same final store, the remote index returned. -/
+theorem run_no_fault_is_round (X : RndX κ η) (last ridx : Nat) (l r : List (Item κ η)) :
+    (roundRun X noFault last ridx l r).store = roundFinal X.toRnd last ridx l r ∧
+    runRet ridx (roundRun X noFault last ridx l r) = .idx ridx := by
+  have hc : (noFault : Fault κ η).cancelAt ≠ some 0 := by simp [noFault]
+  unfold roundRun
+  rw [if_neg hc]
+  have f1 := runPhase_noFault_flags X.fold X.failFast (phaseDels X last ridx l r)
+    { store := l, tried := [], nchk := 0, failed := false, exited := false } rfl rfl
+  have s1 := runPhase_noFault X.fold X.failFast (phaseDels X last ridx l r)
+    { store := l, tried := [], nchk := 0, failed := false, exited := false } rfl rfl
+  simp only [f1.1, f1.2, Bool.false_and, Bool.or_self, Bool.false_eq_true, if_false]
+  have f2 := runPhase_noFault_flags X.fold X.failFast (phaseUps X last ridx l r) _ f1.1 f1.2
+  have s2 := runPhase_noFault X.fold X.failFast (phaseUps X last ridx l r) _ f1.1 f1.2
+  refine ⟨?_, by simp [runRet, f2.1, f2.2]⟩
+  rw [s2, s1, phaseUps_fold, phaseDels_fold, roundFinal_eq]
+
+/-- A round only reports an index when it is COMPLETE: whatever was rejected and wherever the
+    context was cancelled, if the round returns an index then it is the remote index and the store
+    is exactly the result of the fault-free round (to which `round_correct` applies). -/
+theorem run_reports_index_only_when_complete (X : RndX κ η) (F : Fault κ η) (last ridx n : Nat)
+    (l r : List (Item κ η)) (hret : runRet ridx (roundRun X F last ridx l r) = .idx n) :
+    n = ridx ∧ (roundRun X F last ridx l r).store = roundFinal X.toRnd last ridx l r := by
+  have he : (roundRun X F last ridx l r).exited = false := by
+    cases h : (roundRun X F last ridx l r).exited with
+    | false => rfl
+    | true => simp [runRet, h] at hret
+  have hf : (roundRun X F last ridx l r).failed = false := by
+    cases h : (roundRun X F last ridx l r).failed with
+    | false => rfl
+    | true => simp [runRet, he, h] at hret
+  refine ⟨by simp [runRet, he, hf] at hret; exact hret.symm, ?_⟩
+  unfold roundRun at hf he ⊢
+  by_cases hc : F.cancelAt = some 0
+  · rw [if_pos hc] at he; cases he
+  · rw [if_neg hc] at hf he ⊢
+    simp only at hf he ⊢
+    by_cases hstop : ((runPhase X.fold F X.failFast (phaseDels X last ridx l r)
+          { store := l, tried := [], nchk := 0, failed := false, exited := false }).exited ||
+        ((runPhase X.fold F X.failFast (phaseDels X last ridx l r)
+          { store := l, tried := [], nchk := 0, failed := false, exited := false }).failed && X.failFast)) = true
+    · rw [if_pos hstop] at hf he
+      rw [hf, he] at hstop; simp at hstop
+    · rw [if_neg hstop] at hf he ⊢
+      have m := runPhase_mono X.fold F X.failFast (phaseUps X last ridx l r)
+        (runPhase X.fold F X.failFast (phaseDels X last ridx l r)
+          { store := l, tried := [], nchk := 0, failed := false, exited := false })
+      have hf1 : (runPhase X.fold F X.failFast (phaseDels X last ridx l r)
+          { store := l, tried := [], nchk := 0, failed := false, exited := false }).failed = false := by
+        cases h : (runPhase X.fold F X.failFast (phaseDels X last ridx l r)
+          { store := l, tried := [], nchk := 0, failed := false, exited := false }).failed with
+        | false => rfl
+        | true => rw [m.1 h] at hf; cases hf
+      have he1 : (runPhase X.fold F X.failFast (phaseDels X last ridx l r)
+          { store := l, tried := [], nchk := 0, failed := false, exited := false }).exited = false := by
+        cases h : (runPhase X.fold F X.failFast (phaseDels X last ridx l r)
+          { store := l, tried := [], nchk := 0, failed := false, exited := false }).exited with
+        | false => rfl
+        | true => rw [m.2 h] at he; cases he
+      rw [runPhase_clean _ _ _ _ _ hf he, runPhase_clean _ _ _ _ _ hf1 he1, phaseUps_fold, phaseDels_fold,
+        roundFinal_eq]
+
+/-- A context found cancelled right after the fetch: no write, store untouched, the round exits. -/
+theorem run_cancelled_before_writes (X : RndX κ η) (F : Fault κ η) (last ridx : Nat) (l r : List (Item κ η))
+    (hc : F.cancelAt = some 0) :
+    (roundRun X F last ridx l r).store = l ∧ (roundRun X F last ridx l r).tried = [] ∧
+      runRet ridx (roundRun X F last ridx l r) = .exit := by
+  unfold roundRun; rw [if_pos hc]; exact ⟨rfl, rfl, rfl⟩
+
+/-- Whatever subset of the round's writes got applied (rejections, cancellation, in any
+    combination), the secondary's table is still a legal store table and holds only untouched
+    local rows and whole remote objects. -/
+theorem partial_round_store_ok (X : RndX κ η) (F : Fault κ η) (last ridx : Nat) (l r : List (Item κ η))
+    (fl : FoldUnique X.toRnd l) :
+    FoldUnique X.toRnd (roundRun X F last ridx l r).store ∧
+    ∀ y ∈ (roundRun X F last ridx l r).store, y ∈ l ∨ y ∈ r :=
+  ⟨roundRun_inv X F last ridx l r (FoldUnique X.toRnd) (fun s o _ hs => execOp_foldUnique X.toRnd s o hs) fl,
+   roundRun_inv X F last ridx l r (fun s => ∀ y ∈ s, y ∈ l ∨ y ∈ r)
+      (fun s o ho hs => execOp_rows X.fold (fun y => y ∈ l ∨ y ∈ r) r (fun _ hx => Or.inr hx) s o ho hs)
+      (fun _ hy => Or.inl hy)⟩
+
+/-- RETRY CONVERGES. After a round that failed or was cancelled at ANY point — some applies
+    rejected by the store, the context cancelled between any two applies, leadership lost — the
+    next complete round from last index 0 (what `runACLReplicator` / `Replicator.Run` do after an
+    error, and a new leader after an exit) makes the secondary equal to the primary's list `r'` of
+    that time, with no assumption on what the interrupted round managed to write. -/
+theorem retry_after_partial_round_converges (X : RndX κ η) (F : Fault κ η) (last ridx ridx' : Nat)
+    (l r r' : List (Item κ η)) (law : Lawful X.cfg) (fl : FoldUnique X.toRnd l) (fr' : FoldUnique X.toRnd r')
+    (cls : ∀ a ∈ l ++ r ++ r', ∀ b ∈ l ++ r ++ r', X.fold a.id = X.fold b.id →
+            X.cfg.skip a.id = X.cfg.skip b.id ∧ X.noRepl a.id = X.noRepl b.id)
+    (hash : ∀ y ∈ l ++ r, ∀ x ∈ r', y.id = x.id → X.cfg.same x.hash y.hash = true → y.val = x.val)
+    (hmod : ∀ x ∈ r', 0 < x.mod) (k : κ) (hk : X.cfg.skip k = false) (hn : X.noRepl k = false) :
+    valOf (roundFinal X.toRnd (nextLast true 0) ridx' (roundRun X F last ridx l r).store r') k = valOf r' k := by
+  obtain ⟨hfu, hrows⟩ := partial_round_store_ok X F last ridx l r fl
+  have hin : ∀ y ∈ (roundRun X F last ridx l r).store ++ r', y ∈ l ++ r ++ r' := by
+    intro y hy
+    rcases List.mem_append.mp hy with hy | hy
+    · rcases hrows y hy with h | h
+      · exact List.mem_append_left _ (List.mem_append_left _ h)
+      · exact List.mem_append_left _ (List.mem_append_right _ h)
+    · exact List.mem_append_right _ hy
+  apply round_correct_full_sync X.toRnd (nextLast true 0) ridx' _ r' (Or.inr rfl) law hfu fr' _ _ hmod k hk hn
+  · intro a ha b hb e
+    exact cls a (hin a ha) b (hin b hb) e
+  · intro y hy x hx e hs
+    apply hash y _ x hx e hs
+    rcases hrows y hy with h | h
+    · exact List.mem_append_left _ h
+    · exact List.mem_append_right _ h
+
+/-- … and an interrupted round never spoils the consistency the OLD last index stands for: the
+    `Replicator` of config entries / federation states keeps `lastRemoteIndex` across an exit, and
+    may resume from it. `hr`: objects of the later list `r'` not modified after `last'` are the
+    ones the interrupted round saw in `r`. -/
+theorem partial_round_keeps_consistency (X : RndX κ η) (F : Fault κ η) (last ridx last' : Nat)
+    (l r r' : List (Item κ η)) (fl : FoldUnique X.toRnd l)
+    (hl : ∀ y ∈ l, ∀ x' ∈ r', y.id = x'.id → x'.mod ≤ last' → y.val = x'.val)
+    (hr : ∀ y ∈ r, ∀ x' ∈ r', y.id = x'.id → x'.mod ≤ last' → y.val = x'.val) :
+    ∀ y ∈ (roundRun X F last ridx l r).store, ∀ x' ∈ r', y.id = x'.id → x'.mod ≤ last' → y.val = x'.val := by
+  intro y hy
+  rcases (partial_round_store_ok X F last ridx l r fl).2 y hy with h | h
+  · exact hl y h
+  · exact hr y h
+
+/-! ### "every apply succeeds" fails for config entries too: graph validation and the apply order
+
+    Deletions are applied in `configentry.Less` order (kind first): service-defaults "web" (http)
+    is deleted BEFORE service-splitter "web", and the store refuses to leave a splitter on a tcp
+    service. `reconcileLocalConfig` collects the error and goes on: the splitter is deleted, the
+    round fails, and the retry (from index 0) deletes the service-defaults entry. One round is not
+    enough; two are (`retry_after_partial_round_converges`). Executed on the real servers by the
+    harness (`graph` stream). -/
+
+def nmWeb : Bytes := [119, 101, 98]
+def exGraphL : List (Item CKey Nat) := [⟨(kindSplit, nmWeb), 0, 21, 0, 1⟩, ⟨(kindSD, nmWeb), 0, 22, 1, 1⟩]
+def graphFault : Fault CKey Nat := { rej := cfgRej, cancelAt := none }
+
 /-! ### non-vacuity: a concrete ACL round that meets the hypotheses (IDs 1,2,3,4, one legacy
     empty-ID token; `last = 5`, remote index 9; remote `2` unchanged since index 3, remote `1`
     changed at 8) -/
@@ -563,6 +777,12 @@ example : valOf (roundFinal aclRnd 5 9 exL exR) [1] = some 21 := by
 #guard (roundFinalSwapped cfgRnd 0 5 exWeb exWEB).map (·.id) == []
 #guard (roundOps aclRnd 5 9 exL exR).length == 2
 #guard (roundOps aclRnd 20 9 exL exR).length == 2   -- reset: [2] (hash equal) still not upserted
+#guard (roundRun cfgX graphFault 0 5 exGraphL []).store.map (·.id) == [(kindSD, nmWeb)]
+#guard runRet 5 (roundRun cfgX graphFault 0 5 exGraphL []) == Ret.error
+#guard (roundRun cfgX graphFault 0 5 exGraphL []).tried.length == 2
+#guard (roundRun cfgX graphFault 0 5 (roundRun cfgX graphFault 0 5 exGraphL []).store []).store.map (·.id) == []
+#guard runRet 5 (roundRun cfgX graphFault 0 5 (roundRun cfgX graphFault 0 5 exGraphL []).store []) == Ret.idx 5
+#guard (roundRun aclX { rej := fun _ _ => false, cancelAt := some 0 } 5 9 exL exR).store.map (·.id) == exL.map (·.id)
 #guard batches 3 (fun (_ : Nat) => 1) [1, 2, 3, 4, 5, 6, 7] == [[1, 2, 3], [4, 5, 6], [7]]
 #guard batches 10 id [4, 4, 4, 4, 20, 1] == [[4, 4, 4], [4, 20], [1]]
 
